@@ -212,7 +212,15 @@ func (a *Adapter) write(name, args string, fn func(st *State) error) error {
 	return a.call(name, args, true, fn)
 }
 
+// OnCall, when set, runs at the start of every journaled call before the adapter is locked: the
+// harness makes every store access a scheduling point (a database round trip is where real
+// goroutines get descheduled).
+var OnCall func(name string)
+
 func (a *Adapter) call(name, args string, mutating bool, fn func(st *State) error) (err error) {
+	if OnCall != nil {
+		OnCall(name)
+	}
 	a.mu.Lock()
 	defer a.mu.Unlock()
 
